@@ -158,6 +158,17 @@ def _work_handles():
         KeyStore.from_text(BE.keystore_text(BE.det("i", 16), BE.det("a", 16), BE.det("b", 16))).key
 
     yield "handle:envelope:valid", envelope, False
+    big_env, _ = BE.build(BE.det("p", (5 << 20) + 77), key, iv, padding=3)
+
+    def envelope_big():
+        from dissect.hypervisor.util.envelope import Envelope
+
+        fh = _bio(big_env)
+        Envelope(fh).decrypt(key)
+        if fh.getvalue() != big_env:
+            raise AssertionError("the supplied handle's content changed during decrypt")
+
+    yield "handle:envelope:larger-than-a-decrypt-chunk", envelope_big, False
     members = [("d/", "vdir", b""), ("d/a", "visor", b"A" * 513), ("d/u", "ustar", b"U" * 700)]
     tar, _ = BT.build(members, 512)
 
@@ -489,6 +500,24 @@ def _work_cli(vm, d):
 
         yield "cli:corrupt-envelope", failing, True, out2
         yield "cli:missing-input", run(os.path.join(vm, "nothere.ve"), os.path.join(vm, "encryption.info"), os.path.join(outdir, "o3")), True
+
+        def no_output_argument():
+            # without -o the tool has nowhere to write: whatever it does, it must not create or open anything for writing
+            argv = sys.argv
+            sys.argv = ["envelope-decrypt", os.path.join(vm, "local.tgz.ve"), "-ks", os.path.join(vm, "encryption.info")]
+            import contextlib
+
+            try:
+                with contextlib.redirect_stderr(io.StringIO()):
+                    tool.main()
+            except SystemExit:
+                pass
+            except Exception:
+                pass
+            finally:
+                sys.argv = argv
+
+        yield "cli:no-output-argument", no_output_argument, True
     finally:
         shutil.rmtree(outdir, ignore_errors=True)
 
